@@ -10,10 +10,11 @@ HERE = os.path.dirname(os.path.dirname(os.path.abspath(__file__)))
 ap = argparse.ArgumentParser()
 ap.add_argument("--tier", default="quick"); ap.add_argument("--seeds", default="0"); ap.add_argument("--only", default="")
 ap.add_argument("--jobs", type=int, default=4); ap.add_argument("--all-checks", action="store_true")
+ap.add_argument("--start-at", default="", help="skip the seeds that sort before this name (to resume an interrupted run)")
 ap.add_argument("--update-meta", action="store_true", help="record this run in each meta.json (a change that no check caught when it was first tried keeps that fact in missed_when_first_tried)")
 a = ap.parse_args()
 metas = sorted(glob.glob(os.path.join(HERE, "seeded", "*", "meta.json")))
-metas = [m for m in metas if a.only in m]
+metas = [m for m in metas if a.only in m and os.path.basename(os.path.dirname(m)) >= a.start_at]
 
 
 def one(mpath):
